@@ -187,6 +187,11 @@ func (f *OrefaFile) Read(b []byte) (n int, err error) {
 		return 0, &fs.PathError{Op: op, Path: f.name, Err: fs.ErrClosed}
 	}
 
+	// As os.File does, a read into an empty buffer returns at once, whatever the file is.
+	if len(b) == 0 {
+		return 0, nil
+	}
+
 	nd := f.nd
 	if nd.mode.IsDir() {
 		err = avfs.ErrIsADirectory
@@ -228,6 +233,15 @@ func (f *OrefaFile) ReadAt(b []byte, off int64) (n int, err error) {
 		return 0, fs.ErrInvalid
 	}
 
+	// As os.File does: a negative offset is refused first, then an empty buffer is "read" at once.
+	if off < 0 {
+		return 0, &fs.PathError{Op: "readat", Path: f.name, Err: avfs.ErrNegativeOffset}
+	}
+
+	if len(b) == 0 {
+		return 0, nil
+	}
+
 	f.mu.RLock()
 	defer f.mu.RUnlock()
 
@@ -247,10 +261,6 @@ func (f *OrefaFile) ReadAt(b []byte, off int64) (n int, err error) {
 		}
 
 		return 0, &fs.PathError{Op: op, Path: f.name, Err: err}
-	}
-
-	if off < 0 {
-		return 0, &fs.PathError{Op: "readat", Path: f.name, Err: avfs.ErrNegativeOffset}
 	}
 
 	if f.openMode&avfs.OpenRead == 0 {
